@@ -197,6 +197,19 @@ func (w *world) one(k kase, r *engine.Report) (string, string) {
 		if _, err := registration.AuthorizeNode(harness.Ctx, srv, req, aopt...); err != nil {
 			return fail("authorize", "AuthorizeNode failed: %v", err)
 		}
+		// the same node, same certificate key and nonce, but a request signed over a
+		// *different* encryption key: whatever comes back must be for the key in that request
+		rekeyed := proto.Clone(creds).(*types.NodeCredentials)
+		rekeyed.EncryptionPrivateKeyBytes = harness.NewEncKey("rekeyed", w.seed).Priv
+		if rreq, err := rekeyed.CreateFetchNodeCredentialsRequest(harness.Ctx, reqOpt...); err == nil {
+			if rresp, err := registration.FetchNodeCredentials(harness.Ctx, srv, rreq, fetchOpt...); err == nil && harness.HasCreds(rresp) {
+				rekeyed.ServerEncryptionPublicKeyBytes, rekeyed.ServerEncryptionPublicKeyType = rresp.ServerEncryptionPublicKeyBytes, rresp.ServerEncryptionPublicKeyType
+				if derr := nodeenrollment.DecryptMessage(harness.Ctx, rresp.EncryptedNodeCredentials, rekeyed, new(types.NodeCredentials)); derr != nil {
+					return fail("response-not-for-signed-key", "a request signed over another encryption key was answered with credentials that this key cannot open (they are bound to the key seen at authorization): %v", derr)
+				}
+			}
+			r.Branch("rekeyed-request-probed")
+		}
 	case "rewrapped":
 		// the upstream node opens the sealed info with the registration wrapper and re-seals it for the server
 		info, err := registration.DecryptWrappedRegistrationInfo(harness.Ctx, reqInfo, nodeenrollment.WithRegistrationWrapper(w.rw))
@@ -354,6 +367,18 @@ func (w *world) one(k kase, r *engine.Report) (string, string) {
 			return tryHandle(c, resp)
 		},
 	}
+	// a response somebody else built for this node's public key, echoing another nonce
+	rogueResponse := func() *types.FetchNodeCredentialsResponse {
+		rk := harness.NewEncKey("rogue-server", w.seed)
+		src := &types.NodeInformation{CertificatePublicKeyPkix: creds.CertificatePublicKeyPkix, ServerEncryptionPrivateKeyBytes: rk.Priv, ServerEncryptionPrivateKeyType: types.KEYTYPE_X25519,
+			EncryptionPublicKeyBytes: reqInfo.EncryptionPublicKeyBytes, EncryptionPublicKeyType: types.KEYTYPE_X25519}
+		ct, err := nodeenrollment.EncryptMessage(harness.Ctx, &types.NodeCredentials{RegistrationNonce: harness.Bytes("rogue-nonce", 32), CertificateBundles: inner.CertificateBundles}, src)
+		if err != nil {
+			panic(err)
+		}
+		return &types.FetchNodeCredentialsResponse{EncryptedNodeCredentials: ct, ServerEncryptionPublicKeyBytes: rk.Pub, ServerEncryptionPublicKeyType: types.KEYTYPE_X25519}
+	}
+	subs["foreign-response-other-nonce"] = func() error { return tryHandle(load(), rogueResponse()) }
 	for name, f := range subs {
 		if f() == nil {
 			return fail("substitution-accepted:"+name, "the node accepted a response with substitution %q", name)
@@ -370,6 +395,11 @@ func (w *world) one(k kase, r *engine.Report) (string, string) {
 	if err != nil || !proto.Equal(storedCreds, final) || len(storedCreds.CertificateBundles) != 2 {
 		return fail("node-store", "the node's stored credentials are not the handled ones: %v", err)
 	}
+	// once enrolled, the node must still refuse a response that echoes a nonce it never sent
+	if tryHandle(load(), rogueResponse()) == nil {
+		return fail("substitution-accepted:after-enrollment", "after completing its enrollment the node accepted a foreign response echoing another nonce (it would overwrite the stored certificates)")
+	}
+	r.Branch("substitution-refused-after-enrollment")
 	confs, err := nodetls.ClientConfigs(harness.Ctx, storedCreds)
 	if err != nil || len(confs) == 0 {
 		return fail("client-configs", "stored credentials yield no client TLS configuration: %v", err)
@@ -419,7 +449,7 @@ func cases() []kase {
 }
 
 func run(c *engine.Ctx, r *engine.Report) {
-	r.Need("enrolled:operator", "enrolled:token", "enrolled:wrapper", "enrolled:rewrapped", "backend:inmem", "backend:file", "backend:storeonce", "substitution-refused")
+	r.Need("enrolled:operator", "enrolled:token", "enrolled:wrapper", "enrolled:rewrapped", "backend:inmem", "backend:file", "backend:storeonce", "substitution-refused", "substitution-refused-after-enrollment", "rekeyed-request-probed")
 	w := newWorld(c.Seed)
 	for i, k := range cases() {
 		if !c.Mine(i) {
@@ -454,7 +484,7 @@ func init() {
 	engine.Register(&engine.CheckDef{
 		ID:    "C04",
 		Level: "exploration",
-		Rule: "flow {operator-authorized, activation token, wrapper, re-wrapped by an upstream node} x storage back end {inmem, file, store-once} x storage wrapper {off,on} x application state / parameters {none, some} x honest retry {no, yes; not for tokens} = 84 configurations through the real node-side and server-side API; in each, 5 node-side substitutions (other decrypting key, another node's ciphertext / server key / whole response, different nonce) and a final real Dial to a listener over the same store; every issued certificate is parsed and checked; " +
+		Rule: "flow {operator-authorized, activation token, wrapper, re-wrapped by an upstream node} x storage back end {inmem, file, store-once} x storage wrapper {off,on} x application state / parameters {none, some} x honest retry {no, yes; not for tokens} = 84 configurations through the real node-side and server-side API; in each, 6 node-side substitutions (other decrypting key, another node's ciphertext / server key / whole response, different nonce, a foreign response for the node's key echoing another nonce - also after the enrollment completed), a fetch re-signed over another encryption key and a final real Dial to a listener over the same store; every issued certificate is parsed and checked; " +
 			"distinct_nontrivial counts configurations (distinct by construction) that ran to the final dial",
 		Assumptions: []string{"keys of an enrollment are freshly random (the library's own generators); the check is about bindings, not about key values"},
 		Shards:      func(c *engine.Ctx) int { return 12 },
